@@ -252,7 +252,7 @@ class RetryExecutor(CanCustomizeBind, Executor):
             self._log.debug("Shutdown complete")
 
     def submit(self, *args, **kwargs):  # pylint: disable=arguments-differ
-        return self.submit_retry(self._default_retry_policy, *args, **kwargs)
+        return self._submit_retry(self._default_retry_policy, args[0], args[1:], kwargs)
 
     def submit_retry(self, retry_policy, fn, *args, **kwargs):
         """Submit a callable with a specific retry policy.
@@ -260,6 +260,11 @@ class RetryExecutor(CanCustomizeBind, Executor):
         Parameters:
             retry_policy (RetryPolicy): a policy which is used for this call only
         """
+        return self._submit_retry(retry_policy, fn, args, kwargs)
+
+    def _submit_retry(self, retry_policy, fn, args, kwargs):
+        # args and kwargs are not unpacked into a signature with named parameters,
+        # so the callable may take keywords such as "fn" or "retry_policy"
         with self._shutdown.ensure_alive():
             future = RetryFuture(self)
             track_future(future, type="retry", executor=self._name)
